@@ -92,6 +92,22 @@ func mutateBytes(rng *rand.Rand, b []byte, kind string, donor []byte) []byte {
 	case "empty":
 		return []byte{}
 	}
+	if kind == "negq" || kind == "negp" {
+		// the additive inverse modulo the group order / the field prime (shares, scalars / coordinates)
+		c := tss.S256()
+		if mutateOnEd {
+			c = tss.Edwards()
+		}
+		m := c.Params().N
+		if kind == "negp" {
+			m = c.Params().P
+		}
+		v := new(big.Int).SetBytes(b)
+		if v.Sign() == 0 || v.Cmp(m) >= 0 {
+			return b
+		}
+		return new(big.Int).Sub(m, v).Bytes()
+	}
 	if strings.HasPrefix(kind, "g:") {
 		return gridBytes(kind, b, mutateOnEd)
 	}
@@ -298,7 +314,7 @@ func enumerateSpecs(rng *rand.Rand, p c05Proto, perField int) []injSpec {
 	net := p.build(rand.New(rand.NewSource(11)))
 	net.Run(rand.New(rand.NewSource(1)), Strategy{Name: "fifo", Pick: pickFIFO}, 300000)
 	var specs []injSpec
-	kinds := []string{"+1", "random", "other", "empty"}
+	kinds := []string{"+1", "random", "other", "empty", "negq", "negp"}
 	for dev := range net.Nodes {
 		seen := map[string]bool{}
 		for _, m := range net.Nodes[dev].Emitted {
